@@ -89,7 +89,7 @@ def to_iban(number):
     """Convert the number to an IBAN."""
     from stdnum import iban
     separator = ' ' if ' ' in number else ''
-    if len(compact(number)) == 7:
+    if len(clean(number, ' .-').strip()) == 7:
         number = '0000' + number.strip()  # 7-digit postgiro accounts are zero-filled in an IBAN
     return separator.join((
         'NO' + iban.calc_check_digits('NO00' + number),
